@@ -9,6 +9,7 @@ pub struct Model {
     pub vecs: Vec<Vec<Id>>,
     /// `Some(cap)` for fixed-capacity backends
     pub fixed_cap: Vec<Option<usize>>,
+    pub cloneable: bool,
 }
 
 /// Expected observable result of an operation.
@@ -48,7 +49,7 @@ pub fn resolve_range(lo: &Bound<usize>, hi: &Bound<usize>, len: usize) -> Option
 
 impl Model {
     pub fn new(n: usize, fixed_cap: Option<usize>) -> Self {
-        Model { vecs: vec![Vec::new(); n], fixed_cap: vec![fixed_cap; n] }
+        Model { vecs: vec![Vec::new(); n], fixed_cap: vec![fixed_cap; n], cloneable: false }
     }
 
     fn full(&self, v: usize, extra: usize) -> bool {
@@ -117,6 +118,41 @@ impl Model {
     pub fn apply(&mut self, op: &Op) -> Expect {
         let mut ex = Expect::default();
         match op {
+            Op::IterScript { v, script, clone_at, .. } => {
+                ex.nontrivial = !self.vecs[*v].is_empty();
+                let items = self.vecs[*v].clone();
+                let (mut lo, mut hi) = (0usize, items.len());
+                let mut cloned: Option<(usize, usize)> = None;
+                for (n, back) in script.iter().enumerate() {
+                    if *clone_at == Some(n) {
+                        cloned = Some((lo, hi));
+                    }
+                    ex.out.lens.push(hi - lo);
+                    if lo == hi {
+                        ex.out.vals.push(Val::None);
+                    } else if *back {
+                        hi -= 1;
+                        ex.out.vals.push(Val::Id(items[hi]));
+                    } else {
+                        lo += 1;
+                        ex.out.vals.push(Val::Id(items[lo - 1]));
+                    }
+                }
+                ex.out.lens.push(hi - lo);
+                if let Some((a, b)) = cloned {
+                    ex.out.lens.push(b - a);
+                    ex.out.vals.extend(items[a..b].iter().map(|i| Val::Id(*i)));
+                }
+            }
+            Op::CloneEmptyIn { v, .. } => {
+                ex.nontrivial = true;
+                let ids = self.vecs[*v].clone();
+                ex.out.vals.extend(ids.iter().map(|i| Val::Id(*i)));
+                if self.cloneable {
+                    ex.out.vals.extend(ids.iter().map(|i| Val::Id(*i)));
+                    ex.clones.extend_from_slice(&ids);
+                }
+            }
             Op::LazyMulti(m) => {
                 ex.nontrivial = true;
                 let id = match m.kind {
@@ -272,10 +308,15 @@ impl Model {
                 ex.nontrivial = true;
                 let Some((a, b)) = resolve_range(lo, hi, self.vecs[*v].len()) else {
                     ex.out.panicked = true;
+                    // the replacement iterator was built by the caller and is dropped unconsumed:
+                    // a drain of another vector still removes its range when dropped
+                    if let Repl::DrainOf(w, a, b) = repl {
+                        self.vecs[*w].drain(*a..*b);
+                    }
                     return ex;
                 };
                 let range: Vec<Id> = self.vecs[*v].drain(a..b).collect();
-                let at = self.run_script(*v, a, range, script, end, &mut ex);
+                let (at, unyielded) = self.run_script(*v, a, range, script, end, &mut ex);
                 if *end == End::Forget {
                     // replacement is never pulled; its items are leaked / left where they were
                     if let Some(ids) = repl.ids() {
@@ -295,6 +336,8 @@ impl Model {
                         // unspecified-but-valid result
                         ex.resync.push(*v);
                         ex.maybe_lost.extend_from_slice(x);
+                        ex.maybe_lost.extend_from_slice(&unyielded);
+                        ex.maybe_lost.extend_from_slice(&self.vecs[*v][at..]);
                         if !matches!(repl, Repl::Lying(..)) {
                             ex.out.panicked = true;
                         }
@@ -306,6 +349,9 @@ impl Model {
                         ex.out.panicked = true;
                         ex.resync.push(*v);
                         ex.maybe_lost.extend_from_slice(&ids);
+                        // the panic unwinds out of the splice: unyielded items and the tail may be leaked
+                        ex.maybe_lost.extend_from_slice(&unyielded);
+                        ex.maybe_lost.extend_from_slice(&self.vecs[*v][at..]);
                         if matches!(repl, Repl::LazyRefs(..)) {
                             ex.clones_lenient = true;
                         }
@@ -329,7 +375,13 @@ impl Model {
                 ex.nontrivial = true;
                 self.vecs[*into].clear();
             }
-            Op::Reserve { .. } | Op::ShrinkToFit { .. } | Op::ShrinkTo { .. } | Op::RawRoundTrip { .. } => {
+            Op::Reserve { v, n, .. } => {
+                ex.nontrivial = true;
+                if self.vecs[*v].len().checked_add(*n).is_none() {
+                    ex.out.panicked = true;
+                }
+            }
+            Op::ShrinkToFit { .. } | Op::ShrinkTo { .. } | Op::RawRoundTrip { .. } => {
                 ex.nontrivial = true;
             }
         }
@@ -338,7 +390,7 @@ impl Model {
 
     /// Runs the consumption script over the removed `range`; the vector already is prefix+suffix.
     /// Returns the insertion point (start of the range).
-    fn run_script(&mut self, v: usize, a: usize, range: Vec<Id>, script: &[Step], end: &End, ex: &mut Expect) -> usize {
+    fn run_script(&mut self, v: usize, a: usize, range: Vec<Id>, script: &[Step], end: &End, ex: &mut Expect) -> (usize, Vec<Id>) {
         let mut lo = 0usize;
         let mut hi = range.len();
         for st in script {
@@ -372,6 +424,6 @@ impl Model {
             ex.leaked.extend_from_slice(&tail);
             ex.resync.push(v);
         }
-        a
+        (a, range[lo..hi].to_vec())
     }
 }
